@@ -255,6 +255,15 @@ def main():
     if rp:
         rec = json.load(open(rp))
         d = rec['detail']
+        if 'schedule' not in d:
+            # a report of the free-running ThreadSanitizer companion: run that pass again (it is not schedule controlled)
+            env = dict(os.environ)
+            env['LD_LIBRARY_PATH'] = ':'.join(LIBDIRS)
+            env['TSAN_OPTIONS'] = 'exitcode=66:halt_on_error=0'
+            pr = subprocess.run([os.path.join(vlib.HBIN, 'c07free'), d['scenario'], '2', '20', d['source']], env=env, stdout=subprocess.PIPE, stderr=subprocess.PIPE, timeout=600)
+            print(pr.stdout.decode()[-400:])
+            print(pr.stderr.decode('utf-8', 'replace')[-3000:])
+            return
         s = Server(d['scenario'], d.get('threads', 2), d.get('reps', 1), d['source'], 99)
         print(s.seq())
         for k in range(2):      # replay twice: identical observations expected
